@@ -10,9 +10,10 @@
   Part 2  TREE LEVEL: `Impl.repr : Rep → PT` (Format of every type, leaves = the token texts of part 1) followed by
           `PT.den` (reader of the printed sub-language) is the identity on meanings for every printable
           representation.  `Rep.printable` is the decidable class: numbers under the 15-character guard, strings
-          without holes over Unicode scalars, single-valued dict keys, no hole at either end of an array.
+          without holes over Unicode scalars, single-valued dict keys, no attribute named `*`, no hole at either end
+          of an array.
           Without the hypothesis the statement is false (`C12_full_false`); the witnesses are the open findings
-          KF-string-holes-print, KF-dict-dupkey-print and KF-string-nonscalar-print.
+          KF-string-holes-print, KF-dict-dupkey-print, KF-string-nonscalar-print and KF-star-attr-print.
   Part 3  the reader before the repairs (`Old`): the two defects machine-checked on their witnesses.
   What is NOT proved here: that `PT.den` agrees with arr.ai's real parser on the printed texts (structure of
   brackets, commas, operator precedence of `-` and `\`): that tie is the correspondence run of ./check only.
@@ -162,6 +163,9 @@ def holeyString : Rep := .str 0 [97, -1, 99]
 /-- KF-string-nonscalar-print: a surrogate code point inside a String -/
 def surrogateString : Rep := .str 0 [0xD800]
 
+/-- KF-star-attr-print: `//tuple({'*': 1})` — the attribute name `*` is the wildcard marker of tuple literals -/
+def starTuple : Rep := .tup [([42], .num 1)]
+
 theorem C12_full_false : ¬ C12_full := by
   intro hf
   have := hf dupKeyDict
@@ -169,6 +173,9 @@ theorem C12_full_false : ¬ C12_full := by
   decide
 
 theorem dict_multivalued_key_is_rejected : (Impl.repr dupKeyDict).den = none := by decide
+
+/-- `('*': 1)` is rejected ("Wildcard attr cannot have a name") -/
+theorem star_attribute_is_rejected : (Impl.repr starTuple).den = none := by decide
 
 /-- the hole markers are printed as U+FFFD inside the quotes: the text reads back as a dense string -/
 theorem string_holes_read_back_dense :
@@ -188,7 +195,7 @@ def sample : Rep :=
         ([], .rel [[120], [121]] [[.num 1, .tup []], [.num 2, .str 0 [233]]])]
 
 example : sample.printable = true ∧ dupKeyDict.printable = false ∧ holeyString.printable = false
-    ∧ surrogateString.printable = false := by decide
+    ∧ surrogateString.printable = false ∧ starTuple.printable = false := by decide
 
 /-- what `arrai eval` writes at top level (pkg/arrai/out.go): raw for strings and byte arrays, nothing for the
 empty set, the printed form for everything else -/
